@@ -147,8 +147,16 @@ Lemma load_view_wf w s me c idx : atomic_wf w s -> atomic_wf w (load_view s me c
 Proof.
   intros Hs. unfold load_view. cbv zeta.
   assert (Ha : atomic_wf w (apply_load_coherence s c idx)).
-  { unfold apply_load_coherence. cbv zeta. apply set_stores_wf; [exact Hs|].
-    apply Forall_list_upd; [exact (proj1 Hs)|]. intros x Hx. exact Hx. }
+  { destruct Hs as (H1 & H2 & H3 & H4 & H5).
+    assert (Hst : Forall (fun x => bndf w (st_sync x)) (at_stores (apply_load_coherence s c idx))).
+    { apply Forall_forall. intros x Hx.
+      destruct (In_nth _ _ store_default Hx) as (j & Hj & Hnth).
+      rewrite alc_keeps_length in Hj.
+      pose proof (alc_keeps_sync s c idx j) as Hsy. unfold get_store in Hsy.
+      rewrite Hnth in Hsy. rewrite Hsy.
+      rewrite Forall_forall in H1. apply H1. apply nth_In. exact Hj. }
+    unfold apply_load_coherence in *. cbv zeta in *.
+    repeat split; assumption. }
   apply set_stores_wf; [exact Ha|].
   apply Forall_list_upd; [exact (proj1 Ha)|]. intros x Hx. exact Hx.
 Qed.
@@ -1080,6 +1088,11 @@ Ltac obj_side2 :=
           | Hg : get_chan _ ?h = Some ?s |- _ /\ Forall _ (ch_recv_sync ?s ++ _) =>
               split; [bnd Hw|apply Forall_app; split;
                               [exact (proj2 (CWw_get_chan _ _ _ _ Hw Hg))|repeat constructor; bnd Hw]]
+          end
+        | (* a send to a disconnected channel: only the sender-side view moves *)
+          match goal with
+          | Hg : get_chan _ ?h = Some ?s |- _ /\ Forall _ (ch_recv_sync ?s) =>
+              split; [bnd Hw|exact (proj2 (CWw_get_chan _ _ _ _ Hw Hg))]
           end ].
 
 Ltac newobj_side :=
@@ -1131,7 +1144,11 @@ Ltac cclose_step :=
   | |- ck _ (map_others _ _ _ _) => apply ck_map_others_k; [tstep_tac|]
   end.
 
-Ltac cclose := cbn [res_exec lp_exec]; repeat cclose_step.
+(* (the two rewrites: the dead first write of a disconnected MSendPost) *)
+Ltac cclose :=
+  cbn [res_exec lp_exec];
+  rewrite ?upd_object_map_others_upd_object_const, ?upd_object_upd_object_const;
+  repeat cclose_step.
 
 Ltac cstep :=
   match goal with
